@@ -165,7 +165,12 @@ def exprTags : Expr → List String
 def dedupTags (l : List String) : List String :=
   l.foldl (fun acc t => if acc.contains t then acc else acc ++ [t]) []
 
-def oracle (obs0 : List (List String × String)) : Verdict :=
+/-- answers the harness library gives when an operation ran out of time (machine load) or
+    the rest of a case was skipped after that: the case is judged up to there only. -/
+def harnessNoise (ans : String) : Bool := ans = "timeout" || ans = "skipped"
+
+def oracle (obs00 : List (List String × String)) : Verdict :=
+  let obs0 := obs00.takeWhile (fun x => !harnessNoise x.2)
   let obs := obs0.filter (fun x => !isKnob x.1)
   -- parse everything first
   let parsed := obs.map fun (toks, ans) => (toks, parseOp toks, parseObs ans)
